@@ -209,19 +209,25 @@ func runDirectedMemMerge(c *core.Ctx, name string, seed int64) (*outcome, error)
 			return
 		}
 		r.Rec.Emit("ReadEnd", map[string]any{"c": 1, "docs": docs})
+		if os.Getenv("VERIF_C04_DEBUG") != "" {
+			c.Logf("%s read: %v", name, docs)
+		}
 		out.Reads++
 	}
 	r.Quiesce(20 * time.Second)
 	r.SetHolds([]sx.HoldRule{
-		{Point: "persist.loop", Until: "IntroSegment", Count: 3, Timeout: 10 * time.Second, Prob: 1, Once: true},
+		{Point: "persist.loop", Until: "IntroSegment", Count: 5, Timeout: 10 * time.Second, Prob: 1, Once: true},
 		{Point: "memmerge.beforeIntro", Until: "IntroSegment", Count: 1, Timeout: 10 * time.Second, Prob: 1, Once: true},
 	})
 	ids := []string{"a", "b", "c", "d"}
 	if seed%2 == 1 {
 		ids = []string{"d", "c", "b", "a"}
 	}
-	for _, id := range ids { // four unpersisted one-document segments
-		if _, err := r.Submit(sx.BatchSpec{W: 1, Puts: []string{id}, Dels: []string{}}); err != nil {
+	// six unpersisted segments; the first two each hold one live document and one that a
+	// later version has obsoleted when the persister takes its snapshot (every merge unit of
+	// the in-memory merge has its own drops)
+	for _, puts := range [][]string{{ids[0], ids[1]}, {ids[2], ids[3]}, {ids[0]}, {ids[2]}, {"e"}, {"f"}} {
+		if _, err := r.Submit(sx.BatchSpec{W: 1, Puts: puts, Dels: []string{}}); err != nil {
 			_ = r.Close()
 			return nil, err
 		}
@@ -229,7 +235,7 @@ func runDirectedMemMerge(c *core.Ctx, name string, seed int64) (*outcome, error)
 	}
 	parked := r.WaitParked("memmerge.beforeIntro", 1, 10*time.Second)
 	// the overtaking batch: deletes a document of a later merge unit, rewrites another
-	if _, err := r.Submit(sx.BatchSpec{W: 1, Puts: []string{ids[3]}, Dels: []string{ids[2]}}); err != nil {
+	if _, err := r.Submit(sx.BatchSpec{W: 1, Puts: []string{"f"}, Dels: []string{"e"}}); err != nil {
 		_ = r.Close()
 		return nil, err
 	}
